@@ -136,6 +136,33 @@ def exact_lists(sym, ver, level, spare, maxsegs=3, limit=60):
     return out
 
 
+def rounding_adversarial(sym, quick=False, seed=1):
+    """payloads of exactly (and one below) the largest length that fits the largest symbol of a level as ONE byte-mode
+    segment, built from periods on which the mode selection's cost model (sixths of a bit, rounded up per segment) gains
+    or loses against plain bytes; returns [(level, payload)]"""
+    al, hi = 'α'.encode(), '日'.encode()
+    kj = '漢'.encode()
+    periods = [al * 6 + hi + b'1' + al * 10 + b'1', al * 6 + b'1', al * 9 + hi + b'7', hi * 3 + b'12' + al * 5 + b'3',
+               b'a1234', b'ab1234567', b'aABCDEFG', b'a' + b'ABCDEFGHIJKLMNO' + b'b', b'1234ABCDEFG', b'12345678901234567ABCDEFG' + b'x',
+               al * 4 + b'ABCDEFG', b'1' + hi, b'12' + al + b'A', kj * 3 + b'5' + kj * 3 + b'55' + kj * 2 + b'55' + kj * 2 + b'A']
+    rf = ref(sym)
+    out = []
+    for level in sorted({l for (_, l) in rf.configs()}):
+        nmax = 0
+        for (v, l) in rf.configs():
+            if l == level and 'byte' in rf.kinds_for(v):
+                nmax = max(nmax, fit_single(sym, v, level, 'byte', 0) or 0)
+        if nmax == 0:
+            continue
+        for pi, per in enumerate(periods):
+            if quick and sym == 'qr' and (pi + level + seed) % 3 and pi not in (0, len(periods) - 1):
+                continue
+            for n in (nmax, nmax - 1):
+                body = per * (n // len(per))
+                out.append((level, (body + b'a' * (n - len(body)))[:n]))
+    return out
+
+
 def random_segs(sym, r, ver, level, nonempty=True):
     cap = ref(sym).capacity_bits(ver, level)
     ks = kinds_for(sym, ver)
